@@ -81,7 +81,7 @@ def pick_universe(top, cap):
 def step(dev, fmt, vendor, rbk, top, state, new):
     """one transition on the real code; -> (result_state | None, ncmds, error, diff)"""
     from annet import api
-    diff, patch = api._diff_and_patch(dev, env.to_odict(state), env.to_odict(new), None, None, False, rb=rbk)
+    diff, patch = env.diff_and_patch(dev, env.to_odict(state), env.to_odict(new), None, None, False, rb=rbk)
     if vendor in FLAT_VENDORS:
         prefix, exits = FLAT_VENDORS[vendor]
         paths = refdev.patch_paths(patch)
